@@ -392,6 +392,63 @@ class Keys:
         return getattr(self._c, name)
 
 
+RECURSION_REASONS = (
+    (r"^candid::pretty::utils::is_empty$", "walks an RcDoc built by the printers: as deep as the printed type / value, i.e. the nesting of the input"),
+    (r"^candid::pretty::candid::(pp_\w+)$", "structural recursion over a Type: one level per type constructor, bounded by the nesting of the input"),
+    (r"^candid::pretty::candid::value::(pp_\w+)$|IDLValue as core::fmt::Debug", "structural recursion over a value: bounded by the nesting of the input (and by the printer's depth budget)"),
+    (r"^candid::types::type_env::TypeEnv::(as_func|as_service|trace_type|rec_find_type)\w*$", "alias chasing under a RecursionDepth guard"),
+    (r"^candid::types::value::IDLValue::annotate_type_with_depth$", "structural recursion over value and type under a RecursionDepth guard (first statement of the function)"),
+    (r"^candid_parser::typing::(check_type|check_fields|check_meths|check_args)$", "structural recursion over the parsed IDLType tree: one level per type constructor of the input"),
+    (r"^candid_parser::typing::check_cycle::has_cycle$", "follows alias chains; stops at the first name already in the visited set, so at most one frame per definition name *on one chain*"),
+    (r"^candid_parser::typing::(validate_type|validate_func)$", "structural recursion over a checked Type plus one visit per definition name (seen map)"),
+    (r"^candid_parser::syntax::pretty::(pp_\w+)$", "structural recursion over the syntax tree: bounded by the nesting of the input"),
+)
+
+
+def U_sccs(edges):
+    """strongly connected components with a cycle (size > 1 or a self edge), iterative Tarjan"""
+    index, low, on, stack, out = {}, {}, set(), [], []
+    counter = [0]
+    for root in sorted(edges):
+        if root in index:
+            continue
+        work = [(root, iter(sorted(edges.get(root, ()))))]
+        index[root] = low[root] = counter[0]
+        counter[0] += 1
+        stack.append(root)
+        on.add(root)
+        while work:
+            v, it = work[-1]
+            adv = False
+            for w in it:
+                if w not in index:
+                    index[w] = low[w] = counter[0]
+                    counter[0] += 1
+                    stack.append(w)
+                    on.add(w)
+                    work.append((w, iter(sorted(edges.get(w, ())))))
+                    adv = True
+                    break
+                elif w in on:
+                    low[v] = min(low[v], index[w])
+            if adv:
+                continue
+            work.pop()
+            if work:
+                low[work[-1][0]] = min(low[work[-1][0]], low[v])
+            if low[v] == index[v]:
+                comp = []
+                while True:
+                    w = stack.pop()
+                    on.discard(w)
+                    comp.append(w)
+                    if w == v:
+                        break
+                if len(comp) > 1 or v in edges.get(v, ()):
+                    out.append(sorted(comp))
+    return out
+
+
 def run(chk, facts, tier, only=None):
     chk = Keys(chk)
     ctx = Ctx(chk, facts)
@@ -595,7 +652,34 @@ def run(chk, facts, tier, only=None):
                                where=ctx.where(s["fn"], s["ln"]),
                                ok_detail=f"/{rule['pattern']}/: min length {ml} >= {need['min']}, first {need['prefix']} / last {need['suffix']} characters ASCII")
 
-    for rid, desc, fn in (("C13.R1", "every panic site reachable from the text parsers has a committed reason or is decided by R2–R5", r1),
+    # ------------------------------------------------------------------------------------------------ R6
+    def r6():
+        """stack use: every recursive component of the parser closure (direct MIR call edges, closures folded into their parents) needs a
+        reviewed reason why its depth is bounded by the nesting depth of the input, not by its length"""
+        cl = ctx.closure()
+        edges = {}
+        for k in cl.fns:
+            out = set()
+            for cb in cl.bodies[k].with_closures():
+                for _bi, _t, cal in cb.call_sites():
+                    if cal in cl.bodies:
+                        tk = cl._top(cal)
+                        if tk in cl.fns:
+                            out.add(tk)
+            edges[k] = out
+        comps = U_sccs(edges)
+        chk.floor("recursive components in the parser closure", len(comps), 4)
+        for comp in comps:
+            names = sorted(x.rsplit("::", 1)[-1] for x in comp)
+            why = next((r for rx, r in RECURSION_REASONS if all(re.search(rx, x) for x in comp)), None)
+            chk.expect(why is not None, "recursion:" + "+".join(names),
+                       f"the functions {sorted(comp)} call each other recursively on the path from the text parsers and no reviewed bound on "
+                       f"the recursion depth is recorded: if the depth follows the *length* of the input (one frame per token, comment, list "
+                       f"element) a long input overflows the stack, which aborts the process in debug and release builds alike",
+                       where=cl.bodies[sorted(comp)[0]].span["file"], ok_detail=why)
+
+    for rid, desc, fn in (("C13.R6", "recursion reachable from the text parsers is bounded by the nesting depth of the input", r6),
+                          ("C13.R1", "every panic site reachable from the text parsers has a committed reason or is decided by R2–R5", r1),
                           ("C13.R2", "fallible conversions of input text are propagated, never unwrapped without a language argument", r2),
                           ("C13.R3", "token regex language, through the callback model, is included in each unwrapping consumer's precondition", r3),
                           ("C13.R4", "overflow assertions on field-id arithmetic in grammar actions are discharged by interval analysis", r4),
